@@ -19,6 +19,9 @@ def _is_iterable_sel(v, fd):
     return isinstance(v, Iterable) and not isinstance(v, (str, fd.Dimension))
 
 
+ITER_KEYS: dict = {}  # id(iterator) -> list of the items it yields (registered by the driver before the call)
+
+
 def parse_key(fd, xs: Snap, key):
     """Independent model of the documented key forms.
     Returns (sel, status, kinds): sel[letter] = ('single', item) | ('subset', (letter, name, items)) | ('many', items);
@@ -67,7 +70,7 @@ def parse_key(fd, xs: Snap, key):
                     return sel, "skip:two subset dimensions with one letter", "dict"
                 sel[l] = ("subset", (v.letter, v.name, sub))
             elif _is_iterable_sel(v, fd):
-                lst = list(v)
+                lst = list(ITER_KEYS[id(v)]) if (hasattr(v, "__next__") and id(v) in ITER_KEYS) else list(v)
                 if not all(_in(i, its) for i in lst):
                     return sel, "raise:unknown-item", "dict"
                 if len(lst) == 0:
@@ -362,6 +365,8 @@ def register(hub, props=("C05", "C06")):
             if lab in inside:
                 e = expected[inside[lab]]
                 t = 0.0 if tol is None else tol[inside[lab]]
+                if ts.values.dtype.kind == "f" and ts.values.dtype.itemsize < 8 and not isnan(e):
+                    t = max(t, float(np.finfo(ts.values.dtype).eps) * abs(as_float(e)))  # rounding to the target's own precision
                 bad = (isnan(e) != isnan(new)) or (not isnan(e) and (abs(new - e) > t if t else new != e))
                 if bad:
                     mech = f"write:wrong-entry-inside-region{tag}" if not isinstance(rhs, fd.FlodymArray) else f"assign:source-not-summed-by-label{tag}"
